@@ -280,7 +280,7 @@ func (so *Solver) Check(q Query) Answer {
 		if hasHardArith(q.asserts) {
 			stages = [][]string{{"z3new", "cvc5iand", "cvc5sum"}, {"cvc5"}}
 		} else {
-			stages = [][]string{{"z3new"}, {"cvc5", "z3old"}}
+			stages = [][]string{{"z3new"}, {"cvc5"}}
 		}
 	}
 	if v := os.Getenv("GOSYM_SOLVER"); v != "" {
